@@ -11,8 +11,8 @@ Specification = `container/list` written out on `List Nat` (`insBefore`, `insAft
 `List.erase`, `::`, `++`).  `upd A l L` replaces the sequence of list `l` only: every theorem
 below therefore also says that *all other lists are untouched*.
 -/
-import Golib.Proof.C13DWalk
-import Golib.Proof.C13SList
+import Golib.Proof.C13DRefine
+import Golib.Proof.C13SRefine
 
 namespace Golib.C13
 
@@ -61,10 +61,14 @@ theorem c13_dlist_refines_insert {s : DSt} {A : Nat → List Nat} {l : Nat} (v :
         GInv s' (upd A l (insAfter s.fresh mark (A l))) ∧ s'.val.get s.fresh = v)) := by
   refine ⟨?_, ?_, fun mark => ⟨(insertBefore_spec v mark h hl).1, fun hm => ?_⟩,
     fun mark => ⟨(insertAfter_spec v mark h hl).1, fun hm => ?_⟩⟩
-  · obtain ⟨s', r1, r2, _, _, r5⟩ := pushFront_spec v h hl; exact ⟨s', r1, r2, r5⟩
-  · obtain ⟨s', r1, r2, _, _, r5⟩ := pushBack_spec v h hl; exact ⟨s', r1, r2, r5⟩
-  · obtain ⟨s', r1, r2, _, _, r5⟩ := (insertBefore_spec v mark h hl).2 hm; exact ⟨s', r1, r2, r5⟩
-  · obtain ⟨s', r1, r2, _, _, r5⟩ := (insertAfter_spec v mark h hl).2 hm; exact ⟨s', r1, r2, r5⟩
+  · obtain ⟨s', r1, r2, _, _, r5⟩ := pushFront_spec v h hl
+    exact ⟨s', r1, r2, by rw [r5]; simp [IM.get_set]⟩
+  · obtain ⟨s', r1, r2, _, _, r5⟩ := pushBack_spec v h hl
+    exact ⟨s', r1, r2, by rw [r5]; simp [IM.get_set]⟩
+  · obtain ⟨s', r1, r2, _, _, r5⟩ := (insertBefore_spec v mark h hl).2 hm
+    exact ⟨s', r1, r2, by rw [r5]; simp [IM.get_set]⟩
+  · obtain ⟨s', r1, r2, _, _, r5⟩ := (insertAfter_spec v mark h hl).2 hm
+    exact ⟨s', r1, r2, by rw [r5]; simp [IM.get_set]⟩
 
 /-- Node-inserting forms, given a detached node (fresh, or removed earlier from any list). -/
 theorem c13_dlist_refines_insert_node {s : DSt} {A : Nat → List Nat} {l e : Nat}
@@ -119,15 +123,79 @@ theorem c13_dlist_refines_move {s : DSt} {A : Nat → List Nat} {l : Nat} (e : N
   · obtain ⟨s', r1, r2, r3, _⟩ := (moveToFront_spec e h hl).2 hm; exact ⟨s', r1, r2, r3⟩
   · obtain ⟨s', r1, r2, r3, _⟩ := (moveAfter_spec e mark h hl).2 he hne hm; exact ⟨s', r1, r2, r3⟩
 
-/-
-Full statement of `c13_dlist_refines` = the five theorems `c13_dlist_refines_*` here plus the
-same for `MoveToBack` (`upd A l ((A l).erase e ++ [e])`), `MoveBefore`
-(`insBefore e mark ((A l).erase e)`), `PushBackDList(other)` (`A l ++ copies`, the copies
-carrying the values of `A other` as it was at the call, also for `other == l`) and
-`PushFrontDList`.  Those four are not proved yet: they are covered by the differential check
-against `container/list` and the Lean model on every run (incl. lists copied onto themselves);
-the primitive `move` they use is covered by `c13_dlist_inv`.
--/
+/-- `MoveToBack` and `MoveBefore` (all guards: node or mark not in `l`, `e == mark`, already in
+place — `MoveBefore(e, mark)` with `e` right before `mark` runs `move(e, e)` — are no-ops). -/
+theorem c13_dlist_refines_move_back {s : DSt} {A : Nat → List Nat} {l : Nat} (e : Nat)
+    (h : GInv s A) (hl : l < s.nl) :
+    (e ∉ A l → s.moveToBack l e = some s) ∧
+    (e ∈ A l → ∃ s', s.moveToBack l e = some s' ∧ GInv s' (upd A l ((A l).erase e ++ [e])) ∧
+      s'.val = s.val) ∧
+    (∀ mark, ((e ∉ A l ∨ e = mark ∨ mark ∉ A l) → s.moveBefore l e mark = some s) ∧
+      (e ∈ A l → e ≠ mark → mark ∈ A l → ∃ s', s.moveBefore l e mark = some s' ∧
+        GInv s' (upd A l (insBefore e mark ((A l).erase e))) ∧ s'.val = s.val)) := by
+  refine ⟨(moveToBack_spec e h hl).1, fun hm => ?_, fun mark => ⟨(moveBefore_spec e mark h hl).1,
+    fun he hne hm => ?_⟩⟩
+  · obtain ⟨s', r1, r2, r3, _⟩ := (moveToBack_spec e h hl).2 hm; exact ⟨s', r1, r2, r3⟩
+  · obtain ⟨s', r1, r2, r3, _⟩ := (moveBefore_spec e mark h hl).2 he hne hm; exact ⟨s', r1, r2, r3⟩
+
+/-- `PushBackDList(other)` / `PushFrontDList(other)`, **including `other == l`** (a list copied
+onto itself): `|other|` new nodes with the ids `fresh, fresh+1, …` in allocation order are
+appended (prepended, in reverse allocation order) to `l`, carrying the values of `other` *as it
+was at the call*, front to back; no existing node moves or changes value; no panic. -/
+theorem c13_dlist_refines_copy {s : DSt} {A : Nat → List Nat} {l o : Nat}
+    (h : GInv s A) (hl : l < s.nl) (ho : o < s.nl) :
+    (∃ s', s.pushBackDList l o = some s' ∧
+      GInv s' (upd A l (A l ++ List.range' s.fresh (A o).length)) ∧
+      s'.fresh = s.fresh + (A o).length ∧
+      ∀ n, s'.val.get n = copyVal s.val.get s.fresh (A o) n) ∧
+    (∃ s', s.pushFrontDList l o = some s' ∧
+      GInv s' (upd A l ((List.range' s.fresh (A o).length).reverse ++ A l)) ∧
+      s'.fresh = s.fresh + (A o).length ∧
+      ∀ n, s'.val.get n = copyVal s.val.get s.fresh (A o).reverse n) := by
+  constructor
+  · obtain ⟨s', r1, r2, r3, _, r5⟩ := pushBackDList_spec h hl ho; exact ⟨s', r1, r2, r3, r5⟩
+  · obtain ⟨s', r1, r2, r3, _, r5⟩ := pushFrontDList_spec h hl ho; exact ⟨s', r1, r2, r3, r5⟩
+
+/-- **DList refinement over arbitrary histories.**  `ASt` is `container/list` written out on
+sequences of node ids (`ASt.apply`: `::`, `++`, `insBefore`, `insAfter`, `List.erase`,
+`List.range'` for the copies, `succOf` for `Next`/`Prev`), for a family of `nl` lists sharing one
+node space; `DSt.apply` runs the statement-by-statement model of `doubly_list.go`.
+
+1. The memory of `nl` zero-value lists is related to `nl` empty sequences.
+2. From related states, every list of calls `ops` that is allowed (`OpsOk`: receivers are lists
+   of the family, the four node-inserting forms get a detached node, `Init` only on an empty
+   list; **node handles of every other call are arbitrary** — live, removed earlier, owned by
+   another list) runs without panic in the model, returns call by call exactly the results of
+   the specification, and ends in related states.  In particular calls given a node that is
+   not (or no longer) in the list are no-ops because the specification says so.
+3. In related states `Front/Next…` and `Back/Prev…` read exactly the sequence and its reverse.
+4. Handles stay valid across unrelated operations: the specification never renames a node, a
+   call changes no list other than its receiver and no value of an existing node. -/
+theorem c13_dlist_refines :
+    (∀ nl, Abs (DSt.zero nl) (ASt.zero nl)) ∧
+    (∀ (s : DSt) (a : ASt), Abs s a → ∀ ops : List DOp, OpsOk a ops →
+      ∃ s', s.run ops = some (s', (a.run ops).2) ∧ Abs s' (a.run ops).1) ∧
+    (∀ (s : DSt) (a : ASt), Abs s a → ∀ l, l < a.nl → ∀ fuel, (a.seq l).length < fuel →
+      s.forward l fuel = (a.seq l, true) ∧ s.backward l fuel = ((a.seq l).reverse, true)) ∧
+    (∀ (a : ASt) (op : DOp),
+      (∀ k, op.receiver ≠ some k → (a.apply op).1.seq k = a.seq k) ∧
+      (∀ n, n < a.fresh → (a.apply op).1.val n = a.val n) ∧
+      a.fresh ≤ (a.apply op).1.fresh ∧ (a.apply op).1.nl = a.nl) := by
+  refine ⟨fun nl => ⟨c13_zero_value nl, fun n => by simp [DSt.zero, ASt.zero, IM.get_empty], rfl, rfl⟩,
+    fun s a h ops hok => run_refines h ops hok, fun s a h l hl fuel hf => ?_, spec_frame⟩
+  have hl' : l < s.nl := by rw [h.nl]; exact hl
+  exact ⟨forward_spec h.inv hl' fuel hf, backward_spec h.inv hl' fuel hf⟩
+
+/-- Non-vacuity of `c13_dlist_refines`: a history on two zero-value lists with a stale handle
+(`Remove` twice), a foreign handle (`MoveToBack` of a node of the other list), a detached node
+re-inserted, and a list copied onto itself is allowed, and the specification computes the
+expected sequences (so by the theorem the model does, too). -/
+example : ∃ ops : List DOp,
+    OpsOk (ASt.zero 2) ops ∧ ((ASt.zero 2).run ops).1.seq 1 = [4, 2, 5, 6] ∧
+      ((ASt.zero 2).run ops).1.seq 0 = [10, 9, 8, 7, 3] ∧
+      ((ASt.zero 2).run ops).1.val 10 = 9 ∧ ((ASt.zero 2).run ops).1.val 7 = 7 :=
+  ⟨[.pushBack 0 7, .pushBack 0 8, .pushFront 1 9, .remove 0 2, .remove 0 2, .moveToBack 0 4,
+    .pushFrontNode 1 2, .moveBefore 1 4 2, .pushBackDList 1 1, .pushFrontDList 0 1], by decide⟩
 
 /-- Observers: `Len`, `Front`, `Back` and both traversals (`Front`/`Next…` and `Back`/`Prev…`)
 read exactly the abstract sequence; forward and backward traversals agree. -/
@@ -161,13 +229,8 @@ theorem c13_slist_inv :
 
 /-- `Get(i)` returns the `i`-th node for `0 ≤ i < Len()` and nil for every other index
 (never panics); `Front`, `Back`, `Len` are `head`, `tail`, `len` of the invariant.
-Partial: the full `c13_slist_refines` also states, for `Remove(i)` (`L.eraseIdx i`, head/tail
-fix-up, out-of-range ↦ nil/no-op), `InsertNodeAt(i, e)` (clamped: `i ≤ 0` ↦ front, `i ≥ len` ↦
-back, else `L.insertIdx i e`) and `Swap(i, j)` (values of positions `i`, `j` exchanged, no-op
-out of range or `i = j`), that they preserve `SInv` and act on `L` as said.  These three are
-not proved yet; they are covered on every run by the differential check of the real code
-against the Lean model and against the sequence oracle (all indices -1 … len+1). -/
-theorem c13_slist_refines_partial (s : SSt) (L : List Nat) (h : SInv s L) (i : Int) :
+(Formerly `c13_slist_refines_partial`; subsumed by `c13_slist_refines` below.) -/
+theorem c13_slist_refines_get (s : SSt) (L : List Nat) (h : SInv s L) (i : Int) :
     s.getAt i = some (if 0 ≤ i ∧ i < L.length then L[i.toNat]? else none) ∧
     s.head = L.head? ∧ s.tail = L.getLast? ∧ s.len = L.length := by
   refine ⟨getAt_sinv h i, ?_, h.tail, h.len⟩
@@ -175,6 +238,73 @@ theorem c13_slist_refines_partial (s : SSt) (L : List Nat) (h : SInv s L) (i : I
   cases L with
   | nil => simpa [ChainTo] using this
   | cons x xs => simp only [ChainTo] at this; simp [this.1]
+
+/-- The index operations one by one, on any list satisfying the invariant, **for every integer
+index**: `Remove(i)` out of range returns nil and changes nothing, in range it unlinks exactly
+the `i`-th node (`P ++ x :: Q ↦ P ++ Q`, whether `x` is the head, the tail, both or neither),
+returns it with `next` cleared; `InsertNodeAt(i, e)` puts `e` at index `i` clamped to
+`0 … Len()`; `Swap(i, j)` out of range or with `i = j` changes nothing, otherwise exchanges the
+two values and no link.  None of them panics, the `Swap` walk terminates. -/
+theorem c13_slist_index_ops {s : SSt} {L : List Nat} (h : SInv s L) :
+    (∀ i : Int, ¬ (0 ≤ i ∧ i < (L.length : Int)) → s.removeAt i = some (s, none)) ∧
+    (∀ P x Q, L = P ++ x :: Q → ∃ s', s.removeAt (P.length : Int) = some (s', some x) ∧
+      SInv s' (P ++ Q) ∧ s'.next.get x = none ∧ s'.val = s.val) ∧
+    (∀ (i : Int) (e : Nat), e ∉ L → s.next.get e = none →
+      ∃ s', s.insertNodeAt i e = some s' ∧ SInv s' (insAt i e L) ∧ s'.val = s.val) ∧
+    (∀ i j : Int, ¬ ((0 ≤ i ∧ i < (L.length : Int)) ∧ (0 ≤ j ∧ j < (L.length : Int)) ∧ i ≠ j) →
+      s.swap i j = some s) ∧
+    (∀ (i j : Nat) (hi : i < L.length) (hj : j < L.length), i ≠ j →
+      ∃ s', s.swap i j = some s' ∧ SInv s' L ∧ s'.next = s.next ∧
+        s'.val = (s.val.set L[i] (s.val.get L[j])).set L[j] (s.val.get L[i])) := by
+  refine ⟨fun i hr => removeAt_out h i hr, fun P x Q hL => ?_, fun i e he hnil => ?_,
+    fun i j hr => swap_out h i j hr, fun i j hi hj hij => ?_⟩
+  · subst hL
+    obtain ⟨s', r1, r2, r3, _, r5, _⟩ := removeAt_in h _ rfl
+    exact ⟨s', r1, r2, r3, r5⟩
+  · obtain ⟨s', r1, r2, r3, _⟩ := insertNodeAt_sinv i e h he hnil
+    exact ⟨s', r1, r2, r3⟩
+  · obtain ⟨s', r1, r2, r3, _, r5⟩ := swap_in h i j hij hi hj
+    exact ⟨s', r1, r2, r3, r5⟩
+
+/-- **SList refinement over arbitrary histories.**  `SA` is the sequence semantics on a
+`List Id` + value map (`SA.apply`: `List.eraseIdx`, `insAt` = `take ++ e :: drop` with the index
+clamped, `swapVals`, `::`, `++`, `tail`, `[i]?`); `SSt.apply` runs the statement-by-statement
+model of `singly_list.go`.  `SAbs` is the invariant of the property: `Next`-traversal from
+`head` = the sequence (ending in nil), `tail` = last node reachable from `head`, `len` = chain
+length, duplicate-free, nodes outside the list have `next == nil`.
+
+1. The zero value (`NewSingly()`) is related to the empty sequence.
+2. From related states, every list of calls (`Get`, `Remove`, `RemoveFront`, `PushFront`,
+   `PushBack`, `InsertAt`, the three `…Node` forms for nodes not in the list, `Swap`, `Len`,
+   `Front`, `Back`, `Next`) **with arbitrary integer indices** runs without panic, returns call
+   by call the results of the specification (out-of-range `Get`/`Remove` ↦ nil, `Swap` ↦ no-op,
+   `InsertAt` clamped) and ends in related states.
+3. In related states `Front`, `Back`, `Len` and the `Front/Next…` traversal are consistent with
+   the sequence.
+4. The clamping of `insAt` spelled out. -/
+theorem c13_slist_refines :
+    SAbs SSt.zero SA.zero ∧
+    (∀ (s : SSt) (a : SA), SAbs s a → ∀ ops : List SOp, SOpsOk a ops →
+      ∃ s', s.run ops = some (s', (a.run ops).2) ∧ SAbs s' (a.run ops).1) ∧
+    (∀ (s : SSt) (a : SA), SAbs s a →
+      s.head = a.seq.head? ∧ s.tail = a.seq.getLast? ∧ s.len = a.seq.length ∧
+      ∀ fuel, a.seq.length < fuel → walk (fun e => s.next.get e) fuel s.head = (a.seq, true)) ∧
+    (∀ (i : Int) (e : Nat) (L : List Nat),
+      (i ≤ 0 → insAt i e L = e :: L) ∧ ((L.length : Int) ≤ i → insAt i e L = L ++ [e]) ∧
+      (insAt i e L).length = L.length + 1 ∧
+      (0 ≤ i → i ≤ (L.length : Int) → (insAt i e L)[i.toNat]? = some e)) := by
+  refine ⟨sabs_zero, fun s a h ops hok => srun_refines h ops hok, fun s a h => ?_, insAt_clamp⟩
+  exact ⟨chainTo_head h.inv.chain, h.inv.tail, h.inv.len,
+    fun fuel hf => swalk_spec a.seq s.head fuel h.inv.chain hf⟩
+
+/-- Non-vacuity of `c13_slist_refines`: a history with out-of-range and negative indices, a
+head removal, a re-inserted removed node and a swap is allowed and the specification computes
+the expected sequence and values. -/
+example : ∃ ops : List SOp,
+    SOpsOk SA.zero ops ∧ (SA.zero.run ops).1.seq = [0, 3, 1, 2] ∧
+      (List.range 4).map (SA.zero.run ops).1.val = [3, 2, 1, 9] :=
+  ⟨[.pushBack 1, .pushBack 2, .pushBack 3, .insertAt 1 9, .swap 0 3, .remove 1, .remove 7,
+    .removeFront, .pushFrontNode 3, .insertNodeAt (-2) 0, .get 2, .next 1], by decide⟩
 
 /-- Non-vacuity: starting from two zero-value lists, `PushBack 7` on list 0, `PushFront 8` on
 list 0 and `PushBack 9` on list 1 reach (by the theorems above) a state satisfying the invariant
@@ -185,7 +315,7 @@ example : ∃ s A, GInv s A ∧ A 0 = [3, 2] ∧ A 1 = [4] ∧ s.nl = 2 := by
   obtain ⟨s2, _, g2, f2, n2, _⟩ := pushFront_spec (l := 0) 8 g1 (by rw [n1]; decide)
   obtain ⟨s3, _, g3, f3, n3, _⟩ := pushBack_spec (l := 1) 9 g2 (by rw [n2, n1]; decide)
   refine ⟨s3, _, g3, ?_, ?_, by rw [n3, n2, n1]; rfl⟩
-  · simp [upd, f2, f1, DSt.zero]
+  · simp [upd, f1, DSt.zero]
   · simp [upd, f2, f1, DSt.zero]
 
 end Golib.C13
